@@ -210,11 +210,13 @@ func (m mergeRunner) Run(c *Ctx, i int) CaseResult {
 					add("L1.routing", d, nil, nil)
 				}
 			}
-			if len(res.Fails) > 0 {
+			// stop at the first failure that belongs to the property asked for: a difference from the model in one
+			// order (C03's subject) must not hide the comparison between orders (C10's), and vice versa
+			if len(filterMerge(m.prop, res.Fails)) > 0 {
 				break
 			}
 		}
-		if len(res.Fails) > 0 {
+		if len(filterMerge(m.prop, res.Fails)) > 0 {
 			break
 		}
 	}
